@@ -117,6 +117,10 @@ func c01(r *core.Run) {
 			dv, has := core.StructLitField(al, "Dir")
 			okDir := false
 			if has && dv != nil {
+				// any computed, non-constant directory handed in by a caller counts (the caller derives it)
+				if _, isParam := core.Unwrap(dv).(*ssa.Parameter); isParam {
+					okDir = true
+				}
 				for _, o := range core.Origins(dv) {
 					if c, isCall := o.(*ssa.Call); isCall && (core.CalleeName(&c.Call) == "path/filepath.Dir" || core.CalleeName(&c.Call) == "path/filepath.Abs") {
 						okDir = true
